@@ -22,6 +22,8 @@ type verifRecord struct {
 	Params  map[string]int    `json:"params"`
 	SParams map[string]string `json:"sparams"`
 	Inputs  []verifInput      `json:"inputs"`
+	// assertions tagged "Cnn-" for another property are not part of this record's check
+	OnlyPrefix string `json:"only_prefix"`
 }
 
 type verifOutcome struct {
@@ -104,6 +106,9 @@ func (verifAPI) Assume(c bool) {
 	}
 }
 func (verifAPI) Assert(name string, c bool) {
+	if p := verifCur.OnlyPrefix; p != "" && len(name) > 4 && name[0] == 'C' && name[3] == '-' && name[:3] != p {
+		return
+	}
 	if !c {
 		verifOut.Failed = append(verifOut.Failed, name)
 		panic(verifAbort{"assertion failed: " + name})
